@@ -219,9 +219,10 @@ pub fn profile(prop: Prop, thorough: bool) -> Profile {
 
 // ---------------------------------------------------------------- world
 
-// two of the names contain another one ("acct1" in "acct10", "acct3" in "acct3x")
+// two of the names contain another one ("acct1" in "acct10", "acct3" in "acct3x"); one address
+// is spelled like a denomination
 pub const POOL: [&str; 8] = [
-    "acct0", "acct1", "acct2", "acct3", "acct4", "acct10", "acct6", "acct3x",
+    "acct0", "acct1", "acct2", "acct3", "acct4", "acct10", "quote1", "acct3x",
 ];
 
 #[derive(Clone, Debug)]
@@ -313,6 +314,15 @@ pub fn build_world(w: &[u32; WORLD_WORDS], p: &Profile) -> WorldSpec {
             if c.starts_with("conv") {
                 *c = c.replacen('c', "C", 1);
             }
+        }
+    }
+    if gate(w[5].rotate_left(19), 100) {
+        // denominations are opaque strings: IBC vouchers, factory tokens, a leading digit
+        if let Some(q) = quotes.last_mut() {
+            *q = "ibc/27394FB092D2ECCD56123C74F36E4C1F926001CEADA9CA97EA622B25F41E5EB2".to_string();
+        }
+        if let Some(c) = convertibles.last_mut() {
+            *c = "1conv:x".to_string();
         }
     }
     let mut tables = Tables::default();
@@ -734,8 +744,29 @@ impl<'a> Interp<'a> {
         let step = self.concretise_kind(kind, w, book, cfg, faulty, fw);
         // whatever faults were combined, the attached funds stay a list the bank module would
         // deliver: sorted by denomination, one entry per denomination, no zero amounts
+        let nulls = w[11].rotate_left(3) % 5 == 0;
         step.map(|s| match s {
-            Step::Execute { sender, mut funds, msg } => {
+            Step::Execute { sender, mut funds, mut msg } => {
+                // an optional field may be omitted or given as JSON null: same request
+                if nulls {
+                    if let Some(body) = msg.as_object_mut().and_then(|o| o.values_mut().next()).and_then(|b| b.as_object_mut()) {
+                        let kind_keys: &[&str] = &["fee", "size", "approvers", "executors", "ask_fee_rate", "ask_fee_account", "bid_fee_rate", "bid_fee_account", "ask_required_attributes", "bid_required_attributes"];
+                        let is_reject_or_bid_or_modify = true;
+                        if is_reject_or_bid_or_modify {
+                            for k in kind_keys {
+                                // only where the field is optional for this request kind
+                                let optional = match *k {
+                                    "fee" => body.contains_key("quote_size"),
+                                    "size" => !body.contains_key("price") && !body.contains_key("base") && body.contains_key("id") && body.len() <= 2,
+                                    _ => !body.contains_key("id") && !body.contains_key("ask_id"),
+                                };
+                                if optional && !body.contains_key(*k) {
+                                    body.insert((*k).to_string(), Value::Null);
+                                }
+                            }
+                        }
+                    }
+                }
                 funds.sort();
                 let mut merged: Vec<(String, u128)> = vec![];
                 for (d, a) in funds {
